@@ -125,7 +125,7 @@ class Result(object):
 
 def run(symbols, comments=(), nsname='Foo', version='1.0', identifier_prefixes=None, symbol_prefixes=None,
         accept_unprefixed=False, passes=True, warnings=True, dump=None, includes=(), shared_libraries=None, c_includes=(),
-        packages=()):
+        packages=(), include_paths=None):
     """comments: list of (text, filename, lineno). Returns Result with .xml, .log, .warning_count, .root"""
     message.MessageLogger._instance = None
     ns = ast.Namespace(nsname, version, identifier_prefixes=identifier_prefixes, symbol_prefixes=symbol_prefixes)
@@ -140,9 +140,9 @@ def run(symbols, comments=(), nsname='Foo', version='1.0', identifier_prefixes=N
         ns.exported_packages.append(pk)
     tr = Transformer(ns, accept_unprefixed=accept_unprefixed)
     if includes:
-        tr.set_include_paths([STUBGIR])
+        tr.set_include_paths(list(include_paths) if include_paths else [STUBGIR])
     for inc in includes:
-        tr.register_include(ast.Include(inc, '1.0' if inc in ('Mid', 'Base', 'FooExt') else '2.0') if isinstance(inc, str) else inc)
+        tr.register_include(ast.Include(inc, '1.0' if inc in ('Mid', 'Base', 'FooExt', 'Dep') else '2.0') if isinstance(inc, str) else inc)
     blocks = GtkDocCommentBlockParser().parse_comment_blocks(list(comments))
     tr.parse([sym(s) if not isinstance(s, SourceSymbol) else s for s in symbols])
     if dump is not None:
